@@ -16,6 +16,7 @@
   the real code by the harness) and TRUE for the repaired code.
 -/
 import MvModel.SnippetLemmas
+import MvModel.SnippetCharsLemmas
 namespace Mv.Snippet
 
 /-- `isize::MAX`: no Rust allocation, hence no `&str`, is longer -/
@@ -165,7 +166,49 @@ theorem C35_found_partial (c : Bytes) (occ : List (Nat × Nat)) (window maxS : N
   rw [heq]
   exact C35_repaired c occ window maxS hlen
 
+/-! ## The literal char-level transcription (`str::char_indices` decoding) -/
+
+/-- For every well-formed UTF-8 text (every `&str`), the char-level transcription of the Rust
+    loops — `computeC`, which decodes chars the way `Chars::next` does — returns exactly what the
+    byte-level model returns, for both code variants. -/
+theorem C35_chars_agree (fx : Bool) (c : Bytes) (hv : ValidUtf8 c) (occ : List (Nat × Nat))
+    (window maxS : Nat) : computeC fx c occ window maxS = compute fx c occ window maxS :=
+  computeC_eq fx c hv occ window maxS
+
+/-- hence the whole property holds for the char-level transcription of the repaired code -/
+theorem C35_chars_repaired (c : Bytes) (hv : ValidUtf8 c) (occ : List (Nat × Nat)) (window maxS : Nat)
+    (hlen : c.length ≤ ISIZE_MAX) :
+    ∃ r, computeC true c occ window maxS = some r ∧
+      (∀ p ∈ r, p.1 < p.2 ∧ p.2 ≤ c.length ∧ isCharBoundary c p.1 = true ∧ isCharBoundary c p.2 = true ∧
+        sliceOk c p.1 p.2 = true) ∧
+      r.Pairwise (fun x y => x.1 < y.1 ∧ x.2 ≤ y.1) ∧ r.length ≤ maxS := by
+  rw [C35_chars_agree true c hv]
+  exact C35_repaired c occ window maxS hlen
+
+/-- "on character boundaries" means what it says: on a well-formed text every slice starts at the
+    offset of a decoded char and ends at the offset of a decoded char or at the end of the text -/
+theorem C35_boundaries_are_char_starts (c : Bytes) (hv : ValidUtf8 c) (occ : List (Nat × Nat))
+    (window maxS : Nat) (r : List (Nat × Nat)) (h : compute true c occ window maxS = some r) :
+    ∀ p ∈ r, p.1 ∈ charStarts c 0 ∧ (p.2 = c.length ∨ p.2 ∈ charStarts c 0) := by
+  intro p hp
+  have hb := C35_boundaries c occ window maxS r h p hp
+  have hn := C35_nonempty c occ window maxS r h p hp
+  have hi := C35_inside c occ window maxS r h p hp
+  have h1 := (isCharBoundary_iff_charStart c hv p.1).mp hb.1
+  have h2 := (isCharBoundary_iff_charStart c hv p.2).mp hb.2
+  refine ⟨?_, h2⟩
+  rcases h1 with h1 | h1
+  · omega
+  · exact h1
+
 /-! ## Non-vacuity: concrete instances -/
+
+/-- "é. ü" is well-formed UTF-8 and the char-level transcription runs on it -/
+example : ValidUtf8 [0xC3, 0xA9, 0x2E, 0x20, 0xC3, 0xBC] ∧
+    computeC true [0xC3, 0xA9, 0x2E, 0x20, 0xC3, 0xBC] [(4, 6)] 2 3 = some [(4, 6)] :=
+  ⟨.two _ _ _ (by decide) (by decide) (by decide) (.one _ _ (by decide) (.one _ _ (by decide)
+    (.two _ _ _ (by decide) (by decide) (by decide) .nil))), by decide⟩
+
 
 /-- "Hello. World" with the occurrence "World": the slice is the second sentence -/
 example : compute true [0x48,0x65,0x6C,0x6C,0x6F,0x2E,0x20,0x57,0x6F,0x72,0x6C,0x64] [(7, 12)] 0 3
